@@ -609,7 +609,18 @@ pub fn body_spec(role: u16, max_noise: usize, max_pair: u32, all_terminated: boo
         ROLE_FILTER => (stream_spec(T_STDIN, term()), stream_spec(T_DATA, term())).prop_map(|(a, b)| vec![a, b]).boxed(),
         _ => Just(vec![]).boxed(),
     };
-    (streams, proptest::collection::vec((any::<u16>(), noise(max_pair)), 0..=max_noise))
-        .prop_map(|(streams, noise)| BodySpec { streams, noise })
+    // "reply storm": once in a while several hundred body-less records of unknown types in a row at
+    // one position, so that kilobytes of replies are generated (and, with callers that drain the
+    // output buffer partially or not at all, pile up) within one history
+    let storm: BoxedStrategy<Option<(u16, u16, u8)>> = if max_noise > 0 { prop_oneof![24 => Just(None), 1 => (any::<u16>(), 260u16..=1400, any::<u8>()).prop_map(Some)].boxed() } else { Just(None).boxed() };
+    (streams, proptest::collection::vec((any::<u16>(), noise(max_pair)), 0..=max_noise), storm)
+        .prop_map(|(streams, mut noise, storm)| {
+            if let Some((at, count, ty)) = storm {
+                for i in 0..count {
+                    noise.push((at, Noise::UnknownType { ty: ty.wrapping_add((i % 3) as u8), id: if i % 5 == 0 { 1 } else { 0 }, len: 0, pad: 0 }));
+                }
+            }
+            BodySpec { streams, noise }
+        })
         .boxed()
 }
